@@ -58,6 +58,7 @@ pub fn pool() -> Vec<Pv> {
         Pv::Int(-1),
         Pv::Int(2),
         Pv::Int(p53),
+        Pv::Int(p53 + 1),
         Pv::Int(i64::MIN),
         Pv::Int(i64::MAX),
         f(0.0),
@@ -67,6 +68,8 @@ pub fn pool() -> Vec<Pv> {
         f(-1.0),
         f(2.0),
         f(p53 as f64),
+        f(9.223372036854775807e18),
+        f(1.5),
         f(f64::INFINITY),
         f(f64::NEG_INFINITY),
         f(f64::NAN),
@@ -76,6 +79,7 @@ pub fn pool() -> Vec<Pv> {
         s("1.0"),
         s("0"),
         s("true"),
+        s("false"),
         s("abc"),
         s("Abc"),
         s("é∑"),
@@ -90,6 +94,8 @@ pub fn pool() -> Vec<Pv> {
         Pv::Array(vec![Pv::Int(1)]),
         Pv::Array(vec![Pv::Int(1), Pv::Int(2)]),
         Pv::Array(vec![f(1.0), Pv::Int(2)]),
+        Pv::Array(vec![Pv::Int(1), f(2.5)]),
+        Pv::Array(vec![Pv::Array(vec![]), Pv::Array(vec![Pv::Int(7)])]),
         Pv::Array(vec![Pv::Int(2), Pv::Int(1)]),
         Pv::Array(vec![s("a")]),
         Pv::Array(vec![Pv::Nil]),
@@ -724,8 +730,8 @@ impl Engine for C11 {
         if index < 2 {
             rep.sample = Some(json!({
                 "pool_size": pool.len(),
-                "example_pair": [pv_show(&pool[57]), pv_show(&pool[58])],
-                "example_outcome": compare_cmp(&tw1[57], &tw2[58]).show(),
+                "example_pair": [pv_show(&pool[pool.len() - 20]), pv_show(&pool[pool.len() - 19])],
+                "example_outcome": compare_cmp(&tw1[pool.len() - 20], &tw2[pool.len() - 19]).show(),
                 "twins": {"permuted": st.permuted, "churned": st.churned, "serde_roundtrip": st.roundtrip},
                 "outcome_table_digest": format!("{table_digest:016x}"),
             }));
@@ -825,7 +831,7 @@ impl Engine for C11 {
     }
 
     fn rule(&self) -> String {
-        "one run = one assignment of per-object hash seeds (hook H2) and one insertion history per constructed object: every pool value (72 values: nil, booleans, integers incl. 2^53 and i64 bounds, floats incl. +-0.0, infinities, NaN, strings, dates, date-times incl. one instant in two offsets, empty/blank, arrays and objects nested two deep with 1/2/4/6 keys) is built canonically and twice more independently (fresh seeds, permuted insertion order, optional insert-then-remove churn, clone/to_value/serde round trip); ALL ordered pairs of the pool are checked for laws L1-L7, view agreement (Value, ValueCow, ValueViewCmp, ScalarCow and the heterogeneous impls against raw i64/f64/bool/str/String/KString/Date/DateTime) and construction independence over all 16 combinations of copies (one copy is built under a seed stream that is identical in every run, which ties all runs together); a seeded sample of pairs goes through if/case/contains templates and arrays of 2-40 multi-key objects through sort/uniq. distinct_nontrivial counts distinct seed assignments + insertion histories (one per run; each covers every pair that involves an object with >= 2 keys, counter multi_key_pairs_checked); the scalar pairs are a finite table repeated unchanged in every run and add nothing beyond completeness over the pool".into()
+        "one run = one assignment of per-object hash seeds (hook H2) and one insertion history per constructed object: every pool value (79 values: nil, booleans, integers incl. 2^53 and i64 bounds, floats incl. +-0.0, infinities, NaN, strings, dates, date-times incl. one instant in two offsets, empty/blank, arrays and objects nested two deep with 1/2/4/6 keys) is built canonically and twice more independently (fresh seeds, permuted insertion order, optional insert-then-remove churn, clone/to_value/serde round trip); ALL ordered pairs of the pool are checked for laws L1-L7, view agreement (Value, ValueCow, ValueViewCmp, ScalarCow and the heterogeneous impls against raw i64/f64/bool/str/String/KString/Date/DateTime) and construction independence over all 16 combinations of copies (one copy is built under a seed stream that is identical in every run, which ties all runs together); a seeded sample of pairs goes through if/case/contains templates and arrays of 2-40 multi-key objects through sort/uniq. distinct_nontrivial counts distinct seed assignments + insertion histories (one per run; each covers every pair that involves an object with >= 2 keys, counter multi_key_pairs_checked); the scalar pairs are a finite table repeated unchanged in every run and add nothing beyond completeness over the pool".into()
     }
     fn assumptions(&self) -> Vec<String> {
         vec![
